@@ -651,6 +651,25 @@ func c19TypedErrors(r *mc.Run) {
 			}
 			now := w.Now
 			err := world.SafeVerifyRaw(w.Raw(), &verify.Options{GetCollateral: true, CheckRevocations: true, Getter: g, Now: &now, TrustedRoots: w.Roots})
+			// the tool does not set the options by hand: it converts its merged root-of-trust message. The same failing
+			// fetch must surface the same way through options built by that conversion
+			if ro, cerr := verify.RootOfTrustToOptions(&ccpb.RootOfTrust{Cabundles: []string{string(world.PEM(w.PKI.Root))}, GetCollateral: true, CheckCrl: true}); cerr == nil && ro != nil {
+				var g2 trust.HTTPSGetter = &failingGetter{inner: w.Getter.Clone(), failAt: fp.frag}
+				if wrap == "retrying" {
+					g2 = &trust.RetryHTTPSGetter{Timeout: 5 * time.Millisecond, MaxRetryDelay: time.Millisecond, Getter: g2}
+				}
+				now2 := w.Now
+				ro.Getter, ro.Now = g2, &now2
+				err2 := world.SafeVerifyRaw(w.Raw(), ro)
+				var a2 *trust.AttestationRecreationErr
+				var c2p *verify.CRLUnavailableErr
+				var c2v verify.CRLUnavailableErr
+				if err2 == nil || !(errors.As(err2, &a2) || errors.As(err2, &c2p) || errors.As(err2, &c2v)) {
+					r.Violate("typed-error:via-root-of-trust-conversion:"+fp.name, id, "with options converted from a root-of-trust message (check_crl + get_collateral) a failed "+fp.name+" download gives: "+errStr(err2), nil)
+				}
+			} else {
+				r.Violate("typed-error:conversion-failed", id, "RootOfTrustToOptions refuses an inline bundle with both switches on: "+errStr(cerr), nil)
+			}
 			var are *trust.AttestationRecreationErr
 			var crlP *verify.CRLUnavailableErr
 			var crlV verify.CRLUnavailableErr
